@@ -268,6 +268,17 @@ func (a *align) Length() int {
 	return a.length
 }
 
+// FilterLength removes sequences whose length is <minlength or >maxlength
+// (see SeqBag.FilterLength). If no sequence remains, the alignment is empty
+// and its length is reset accordingly.
+func (a *align) FilterLength(minlength, maxlength int) (err error) {
+	err = a.seqbag.FilterLength(minlength, maxlength)
+	if len(a.seqs) == 0 {
+		a.length = -1
+	}
+	return
+}
+
 // Shuffles vertically rate sites of the alignment
 // randomly
 // rate must be >=0 and <=1
